@@ -6,6 +6,8 @@ this bookkeeping automaton (any number of batch threads, any schedule); the real
 observed with recording peers by the correspondence run.
 -/
 import ConfModel.Lemmas.Run
+import ConfModel.Lemmas.ClientPipe
+import ConfModel.Lemmas.ClientWait
 import ConfModel.Props.C08
 namespace ConfModel.Props.C05
 open ConfModel.Run ConfModel.Trie ConfModel.Glob
@@ -251,6 +253,88 @@ theorem handshake_close_before_await :
     handshake .blind [.await, .write, .close] = true ∧ handshake .msg [.await, .write, .close] = false := by
   decide
 
+/-! ### the run terminates: what a batch thread waits for on its way from "server started" to "server ended"
+
+The dispatching system above takes for granted that a batch thread, once its server is up, gets
+to the point where it stops it.  On that way the batch hands its permutations to the client —
+`sendRequest`, a write into the client's stdin while it holds `sendMu` — and then waits for its
+`sync.WaitGroup`.  Two things keep it from waiting for ever. -/
+
+/-- **A write to a client process that is gone comes back.**  The client under test is an OS
+process (`runCommand`); it may exit at any moment — before it has read anything, between two
+requests, in the middle of one.  In every state reached by any interleaving of the sender, os/exec's
+copier, the goroutine that waits for the process and the process itself: once the process has
+exited, a sender that is still inside its writes is not left alone — some step of the runner's own
+goroutines is enabled (the write is taken by the copier, the copier fails with EPIPE and stops,
+`cmd.Wait()` returns, the waiting goroutine **closes the read end of the stdin pipe**, the write
+fails).  (`closeSend` cannot help: it needs `sendMu`, which the sender holds.) -/
+theorem send_to_exited_client_returns (cfg : ClientPipe.Cfg) (hc : cfg.closeOnExit = true) (writes : Nat)
+    (evs : List ClientPipe.Ev) :
+    let s := ClientPipe.run cfg (ClientPipe.init cfg writes) evs
+    s.procUp = false → ClientPipe.senderOut s = false →
+      ∃ e, e.internal = true ∧ (ClientPipe.step cfg s e).isSome = true := by
+  intro s hp ho
+  have hinv : ClientPipe.PInv cfg s := ClientPipe.pinv_run cfg evs _ (ClientPipe.pinv_init cfg writes)
+  have hw : 0 < s.toWrite := by
+    simp only [ClientPipe.senderOut, beq_eq_false_iff_ne, ne_eq] at ho; omega
+  obtain ⟨e, he, hen⟩ := ClientPipe.progress_after_exit cfg hc s hinv hp hw
+  exact ⟨e, ClientPipe.own_internal e he, hen⟩
+
+/-- … and no livelock: every step of the runner's own goroutines on that path lowers the measure
+`ClientPipe.mu` (four per outstanding `Write`, plus what the copier and the waiting goroutine have
+left to do). -/
+theorem pipe_steps_terminate (cfg : ClientPipe.Cfg) (s s' : ClientPipe.St) (e : ClientPipe.Ev)
+    (hi : e.internal = true) (hs : ClientPipe.step cfg s e = some s') : ClientPipe.mu s' < ClientPipe.mu s :=
+  ClientPipe.internal_step_lt cfg s s' e hi hs
+
+/-- Together: from any reachable state in which the client process has exited, letting the runner's
+own goroutines run (`settle`: `mu s` rounds suffice) gets the sender out of `sendRequest` — whatever
+the client had read, however many writes were outstanding. -/
+theorem sender_returns_after_exit (cfg : ClientPipe.Cfg) (hc : cfg.closeOnExit = true) (writes : Nat)
+    (evs : List ClientPipe.Ev) :
+    let s := ClientPipe.run cfg (ClientPipe.init cfg writes) evs
+    s.procUp = false → ClientPipe.senderOut (ClientPipe.settle cfg s (ClientPipe.mu s)) = true := by
+  intro s hp
+  have hinv : ClientPipe.PInv cfg s := ClientPipe.pinv_run cfg evs _ (ClientPipe.pinv_init cfg writes)
+  have := ClientPipe.settle_out cfg hc (ClientPipe.mu s) s hinv hp (Nat.le_refl _)
+  simp [ClientPipe.senderOut, this]
+
+/-- What the closing of the stdin pipe on exit is for: without it, a client that exits while a
+request is being written leaves the sender blocked for ever — the copier is gone after its first
+EPIPE, `cmd.Wait()` has returned, and not a single step is enabled any more, of anybody
+(`closeSend` waits for the sender's `sendMu`): the batch never stops its server and `run()` never
+returns. -/
+theorem exit_must_close_stdin :
+    (ClientPipe.run ClientPipe.withoutClose (ClientPipe.init ClientPipe.withoutClose 2) [.pExit, .wHand, .cEpipe, .wDone, .wClose]).procUp = false ∧
+    ClientPipe.senderOut (ClientPipe.run ClientPipe.withoutClose (ClientPipe.init ClientPipe.withoutClose 2) [.pExit, .wHand, .cEpipe, .wDone, .wClose]) = false ∧
+    (∀ e : ClientPipe.Ev, ClientPipe.step ClientPipe.withoutClose
+      (ClientPipe.run ClientPipe.withoutClose (ClientPipe.init ClientPipe.withoutClose 2) [.pExit, .wHand, .cEpipe, .wDone, .wClose]) e = none) ∧
+    ClientPipe.senderOut (ClientPipe.settle ClientPipe.code
+      (ClientPipe.run ClientPipe.code (ClientPipe.init ClientPipe.code 2) [.pExit, .wHand, .cEpipe, .wDone]) 4) = true := by
+  refine ⟨by decide, by decide, fun e => by cases e <;> decide, by decide⟩
+
+/-- **The `WaitGroup` of a batch is released.**  Several batches share the client runner; batch
+`ids` (any list of `sendRequest` calls) counts up before each of its sends and is counted down by
+the completion callback, or by itself when the send is refused.  In every terminal state of the
+runner (output reader finished — for whatever reason: end of output, unknown or duplicate answer,
+garbage, time-out —, every started send returned), reached by **any** interleaving of any number of
+concurrent senders with the reader and any client behaviour, the counter is back at zero:
+`wg.Wait()` passes, the batch goes on to stop its server.  This rests on the reader shutting the
+send side (`closeSend`, which waits for `sendMu`) **before** it fails what is still pending: no send
+registers after the sweep (C10 `exactly_once`). -/
+theorem batch_wait_released (names : Nat → ClientRunner.Name) (evs : List ClientRunner.Event) (ids : List Nat)
+    (ht : ClientRunner.Spec.Terminal (ClientRunner.run names ClientRunner.init evs)) :
+    ClientRunner.batchWaitPasses (ClientRunner.run names ClientRunner.init evs) ids = true := by
+  have := ClientRunner.wg_eq names _ (ClientRunner.reachable_inv names evs) ht ids
+  simp [ClientRunner.batchWaitPasses, this]
+
+/-- … and it never goes negative on the way (a negative `WaitGroup` counter panics): at any moment
+of any run no request has been counted down more often than up. -/
+theorem batch_wait_counter_sound (names : Nat → ClientRunner.Name) (evs : List ClientRunner.Event) (ids : List Nat) :
+    ClientRunner.wgDones (ClientRunner.run names ClientRunner.init evs) ids ≤
+      ClientRunner.wgAdds (ClientRunner.run names ClientRunner.init evs) ids :=
+  ClientRunner.wg_le names _ (ClientRunner.reachable_inv names evs) ids
+
 /-! Non-vacuity. -/
 private def pa : Perm := ⟨["S", "a"], ⟨1, 1, false, false⟩⟩
 private def pb : Perm := ⟨["S", "b"], ⟨2, 2, false, false⟩⟩
@@ -271,5 +355,32 @@ example :
 example : (execSys 2 (initSys 3) (fairSchedule 3 7 none)).disp = .returned ∧
     (execSys 2 (initSys 3) (fairSchedule 3 7 none)).threads = [.done, .done, .done] ∧
     (execSys 2 (initSys 3) (fairSchedule 3 7 (some 1))).disp = .returned := by decide
+
+/-- `send_to_exited_client_returns` / `sender_returns_after_exit`: the client exits after the length
+prefix of a request was handed over, the body is outstanding: process down, sender inside, a step
+enabled; four rounds get the sender out (with an error) -/
+example : let s := ClientPipe.run ClientPipe.code (ClientPipe.init ClientPipe.code 2) [.wHand, .pExit]
+    ClientPipe.code.closeOnExit = true ∧ s.procUp = false ∧ ClientPipe.senderOut s = false ∧ ClientPipe.mu s = 8 ∧
+    (ClientPipe.settle ClientPipe.code s 8).failed = true ∧ ClientPipe.senderOut (ClientPipe.settle ClientPipe.code s 8) = true := by decide
+/-- `pipe_steps_terminate` on a concrete step: the copier's EPIPE lowers the measure from 8 to 6 -/
+example : ClientPipe.Ev.cEpipe.internal = true ∧
+    (ClientPipe.step ClientPipe.code (ClientPipe.run ClientPipe.code (ClientPipe.init ClientPipe.code 2) [.wHand, .pExit]) .cEpipe).map ClientPipe.mu = some 6 := by decide
+/-- a client that lives and reads: both writes of a request get through, nothing fails -/
+example : let s := ClientPipe.run ClientPipe.code (ClientPipe.init ClientPipe.code 2) [.wHand, .cPush, .wHand, .cPush, .pRead]
+    ClientPipe.senderOut s = true ∧ s.failed = false ∧ s.room = 15 := by decide
+
+/-- `batch_wait_released`: two batches ([0] and [1, 2]) on one runner; batch 0's sender is in the
+write (holds `sendMu`), batch 1's sender has passed its first check and waits for the lock; the
+client answers a name nobody asked for and goes on reading.  The reader aborts, waits for `sendMu`,
+request 1 still registers and is written — and is failed by the sweep that comes AFTER `closeSend`;
+request 2 is refused.  Terminal, both WaitGroups at zero. -/
+private def twoBatches : List ClientRunner.Event :=
+  [.sStart 0, .sLock 0, .sRegister 0, .sStart 1, .rRecv 99, .rLookup, .rSetErr, .rTerminate, .rAbort,
+   .sWriteOk 0, .sLock 1, .sRegister 1, .sWriteOk 1, .sStart 2, .rCloseSend, .rDrain, .rDone]
+example : let s := ClientRunner.run (fun i => 10 + i) ClientRunner.init twoBatches
+    s.rpc = .done ∧ s.spc 0 = .ret .ok ∧ s.spc 1 = .ret .ok ∧ s.spc 2 = .ret (.err .fail) ∧
+    ClientRunner.Spec.cbsOf s 0 = [none] ∧ ClientRunner.Spec.cbsOf s 1 = [none] ∧
+    ClientRunner.wgAdds s [1, 2] = 2 ∧ ClientRunner.wgDones s [1, 2] = 2 ∧
+    ClientRunner.batchWaitPasses s [0] = true ∧ ClientRunner.batchWaitPasses s [1, 2] = true := by decide
 
 end ConfModel.Props.C05
